@@ -8,6 +8,7 @@ import ast
 import collections
 import copy
 import hashlib
+import json
 import random
 import sys
 import threading
@@ -29,6 +30,8 @@ GOOD = {
     'norm': [True, False, 'star', 'call'], 'norm_self': [None, True, False], 'norm_get': [None, True, False],
     'set_norm': ['star', 'call'], 'op_side': ['left', 'right'], 'coerce': [True, False],
     'promote': [True, False, 'identifier', 'all'],
+    # the extra Compare operator: source string or list of source lines (a mutable value the library must not change)
+    'op': [None, '<', 'is not', ['=='], ['not in'], ['is \\', 'not'], ['>=']],
 }
 BAD = [{'foo': 1}, {'pars': 3}, {'trivia': 'bad'}, {'raw': 'x'}, {'norm': 7}, {'pep8space': 2}, {'docstr': 'x'},
        {'set_norm': True}, {'op_side': 'up'}, {'args_as': 'zz'}, {'coerce': 1}, {'elif_': None}, {'trivia': (1, 2, 3)},
@@ -41,7 +44,7 @@ class _BlockBoom(Exception):
 
 def gen_good(rng, k=None):
     keys = rng.sample(sorted(GOOD), k or rng.choice([1, 1, 2, 3]))
-    return O.enc_opts({key: rng.choice(GOOD[key]) for key in keys})
+    return O.enc_opts({key: copy.deepcopy(rng.choice(GOOD[key])) for key in keys})
 
 
 # ----------------------------------------------------------------------------------------------------------------------
@@ -70,11 +73,17 @@ def gen_script_op(rng, root, depth=0):
                 c.append({'k': 'cut_slice', 'path': [list(p) for p in path], 'field': 'elts', 'start': 0, 'stop': 'end', 'opts': {}})
             elif isinstance(node, ast.Compare):
                 c.append({'k': 'put_slice', 'path': [list(p) for p in path], 'field': '_all', 'start': 1, 'stop': 2, 'opts': {}, 'code': {'form': 'none'}})
+                # insert of a bare operand: the missing operator comes from the 'op' option (thread default or per call)
+                for _ in range(3):
+                    i = rng.randint(0, len(node.comparators) + 1)
+                    c.append({'k': 'put_slice', 'path': [list(p) for p in path], 'field': '_all', 'start': i, 'stop': i,
+                              'opts': O.enc_opts({'op': copy.deepcopy(rng.choice(GOOD['op'])), 'op_side': rng.choice(GOOD['op_side'])}) if rng.random() < 0.6 else {},
+                              'code': {'form': 'src', 'cat': 'expr', 'text': rng.choice(['zz', 'zy', '(zx)'])}, 'one': rng.choice([False, True])})
             elif isinstance(node, ast.BoolOp) and len(node.values) > 2:
                 c.append({'k': 'put_slice', 'path': [list(p) for p in path], 'field': 'values', 'start': 1, 'stop': 2, 'opts': {}, 'code': {'form': 'none'}})
         if c:
             op = rng.choice(c)
-            if rng.random() < 0.3:
+            if rng.random() < 0.3 and not op['opts']:
                 op['opts'] = gen_good(rng)
                 op['opts'].pop('raw', None)
             return {'s': 'edit', 'op': op}
@@ -121,6 +130,7 @@ class Worker:
         self.record = []
         self.model_err = None
         self.error = None
+        self.opt_objs = {}
 
     def snapshot(self):
         import fst
@@ -163,7 +173,7 @@ class Worker:
             try:
                 old = FST.set_options(**o)
                 rec = ('set', O.enc_opts(old))
-                self.model.update(o)
+                self.model.update(copy.deepcopy(o))
             except Exception as e:
                 rec = ('set_exc', O.exc_repr(e))
         elif s == 'set_bad':
@@ -172,7 +182,7 @@ class Worker:
             try:
                 FST.set_options(**o)
                 rec = ('set_bad_accepted', None)
-                self.model.update(o)
+                self.model.update(copy.deepcopy(o))
             except ValueError as e:
                 rec = ('set_bad_rejected', O.exc_repr(e)[:80])
                 if FST.get_options() != before and self.model_err is None:
@@ -183,14 +193,14 @@ class Worker:
             rec = ('snapshot', self.snapshot())
         elif s in ('block', 'block_bad'):
             o = O.dec_opts(op['opts'])
-            entry = dict(self.model)
+            entry = copy.deepcopy(self.model)
             inner = op.setdefault('inner', []) if gen else op.get('inner', [])
             new_inner = []
             try:
                 with FST.options(**o):
                     if s == 'block_bad':
                         rec = ('block_bad_entered', None)
-                    self.model.update(o)
+                    self.model.update(copy.deepcopy(o))
                     self.check_model('inside block')
                     if gen:
                         for _ in range(op['n']):
@@ -222,11 +232,19 @@ class Worker:
                 r = f.own_src(**o)
                 if op.get('twice'):  # and once more without the per-call option, on the same unmodified node
                     r = (r, f.own_src())
-                fresh = O.resolve_f(fst.FST(self.root.src, 'exec'), op['path'])
+                froot = fst.FST(self.root.src, 'exec')
+                fresh = O.resolve_f(froot, op['path'])
                 want = fresh.own_src(**o)
                 if op.get('twice'):
                     want = (want, O.resolve_f(fst.FST(self.root.src, 'exec'), op['path']).own_src())
-                if r != want and self.model_err is None:
+                # precondition of the comparison: the live tree is, node for node and position for position, the parse
+                # of its source (edits made with norm=False may leave e.g. an empty BoolOp whose source '()' parses as
+                # a Tuple; source/tree agreement itself is C01's subject, not this check's)
+                # ... and was built with the same inferred indentation unit (a tree keeps the unit inferred when it was
+                # built; after edits a fresh parse may infer another one: known finding C02-K1, decided by C02)
+                same = (ast.dump(self.root.a, include_attributes=True) == ast.dump(froot.a, include_attributes=True)
+                        and self.root.indent == froot.indent)
+                if same and r != want and self.model_err is None:
                     self.model_err = f'own_src({o!r}) of {op["path"]!r} depends on earlier calls: live={r!r} fresh tree asked alone={want!r}'
                 rec = ('own_src', O.result_repr(r))
             except O.Skip:
@@ -250,12 +268,17 @@ class Worker:
             if self.explicit and 'opts' in eop and eop.get('k') not in ('put_docstr', 'put_line_comment'):  # these two have their own trivia default
                 eop = dict(eop, opts=O.enc_opts(dict(self.model, **O.dec_opts(eop.get('opts')))))
             try:
-                r = O.apply_edit(self.root, eop)
+                r = O.apply_edit(self.root, eop, opt_objs=self.opt_objs)
                 rec = ('edit', O.result_repr(r))
             except O.Skip:
                 rec = ('edit_skip', None)
             except Exception as e:
                 rec = ('edit_exc', O.exc_repr(e))
+            for (ok, js), obj in self.opt_objs.items():
+                # the caller passes the same list object whenever it names the same value: a call that changed it has
+                # affected every later call that passes it
+                if json.dumps(obj) != js and self.model_err is None:
+                    self.model_err = f'per-call option {ok}={json.loads(js)!r} was changed by the call to {obj!r}: later calls passing the same object are affected'
         if s not in ('block', 'block_bad'):
             self.check_model(f'after {s}')
         else:
